@@ -187,8 +187,11 @@ pub fn with_reprs<V: Visitor>(t: &T, v: &mut V) {
             // every split point at a char boundary gives an NsTerm
             let cuts: Vec<usize> = s.char_indices().map(|(i, _)| i).chain([s.len()]).collect();
             for &c in [cuts[0], cuts[cuts.len() / 2], cuts[cuts.len() - 1]].iter() {
-                let ns = Namespace::new_unchecked(&s[..c]);
-                v.visit("ns_term", ns.get_unchecked(&s[c..]));
+                // a prefix of an IRI need not be an IRI reference (cut inside "%61", "[::1]" ...)
+                if IriRef::new(&s[..c]).is_ok() {
+                    let ns = Namespace::new_unchecked(&s[..c]);
+                    v.visit("ns_term", ns.get_unchecked(&s[c..]));
+                }
             }
             v.visit("rio_named", Trusted(rio::NamedNode { iri: s.as_str() }));
             v.visit("rio_graphname", Trusted(rio::GraphName::NamedNode(rio::NamedNode { iri: s.as_str() })));
@@ -212,8 +215,10 @@ pub fn with_reprs<V: Visitor>(t: &T, v: &mut V) {
             v.visit("generic_literal_box", GenericLiteral::<Box<str>>::Typed(l.as_str().into(), IriRef::new_unchecked(d.as_str().into())));
             // `"lex" * ns::term`
             let cut = d.rfind(['#', '/']).map(|i| i + 1).unwrap_or(0);
-            let ns = Namespace::new_unchecked(&d[..cut]);
-            v.visit("str_times_ns", l.as_str() * ns.get_unchecked(&d[cut..]));
+            if IriRef::new(&d[..cut]).is_ok() {
+                let ns = Namespace::new_unchecked(&d[..cut]);
+                v.visit("str_times_ns", l.as_str() * ns.get_unchecked(&d[cut..]));
+            }
             if d == XSD_STRING {
                 v.visit("native_str", l.as_str());
                 v.visit("rio_simple", Trusted(rio::Literal::Simple { value: l.as_str() }));
